@@ -257,12 +257,17 @@ def parse_enums(src):
             while part.startswith('#['):
                 k = match_paren(part, 1)
                 part = part[k + 1:].strip()
-            mm = re.match(r'^(\w+)', part)
+            mm = re.match(r'^(\w+)\s*(\(?)', part)
             if mm:
                 vs.append(mm.group(1))
+                if mm.group(2):
+                    TUPLE_VARIANTS.add((m.group(1), mm.group(1)))
         out[m.group(1)] = vs
     return out
 
+
+TUPLE_VARIANTS = {('Option', 'Some'), ('Result', 'Ok'), ('Result', 'Err'), ('Cow', 'Borrowed'), ('Cow', 'Owned'),
+                  ('Component', 'Normal'), ('ControlFlow', 'Continue'), ('ControlFlow', 'Break')}
 
 STD_ENUMS = {
     'Option': {'None': 0, 'Some': 1},
@@ -286,6 +291,7 @@ class Program:
         self.srccache = {}
         self.enums = {k: dict(v) for k, v in STD_ENUMS.items()}
         self.crate_enums = set()
+        self.unit_structs = {'RangeFull', 'PhantomData'}
         self.struct_fields = {}
         self.index = {}        # (self_last, trait_last|None, method) -> [Fn]
         self.closures = {}     # '{closure@file:span}' -> Fn
@@ -314,6 +320,8 @@ class Program:
                     files.append(os.path.join(d, fn))
         for p in files:
             txt = open(p).read()
+            for mm in re.finditer(r'\bstruct\s+(\w+)\s*;', strip_comments(txt)):
+                self.unit_structs.add(mm.group(1))
             for name, vs in parse_enums(txt).items():
                 self.enums[name] = {v: i for i, v in enumerate(vs)}
                 self.crate_enums.add(name)
